@@ -670,6 +670,7 @@ conf_json(char* b, size_t cap, const struct AcquireProperties* p)
     return n;
 }
 
+static int start_may = 0, last_rc = 0;
 static void
 api(const char* op)
 {
@@ -706,7 +707,11 @@ api(const char* op)
         rc = acquire_shutdown(rt);
     }
     int st = !strcmp(op, "shutdown") ? -1 : (int)acquire_get_state(rt);
-    ev("{\"e\":\"Api\",\"op\":\"%s\",\"ph\":\"ret\",\"rc\":%d,\"st\":%d}", op, rc, st);
+    if (start_may && !strcmp(op, "start")) // (a start the client does not expect to succeed: a failed device was not configured again)
+        ev("{\"e\":\"Api\",\"op\":\"%s\",\"ph\":\"ret\",\"rc\":%d,\"st\":%d,\"may\":1}", op, rc, st);
+    else
+        ev("{\"e\":\"Api\",\"op\":\"%s\",\"ph\":\"ret\",\"rc\":%d,\"st\":%d}", op, rc, st);
+    last_rc = rc;
     pending_api = "";
 }
 
@@ -720,6 +725,18 @@ run_prog(void)
         const char* op = prog[i];
         if (!strcmp(op, "start") || !strcmp(op, "stop") || !strcmp(op, "abort") || !strcmp(op, "configure")) {
             api(op);
+        } else if (!strcmp(op, "startmay")) {
+            // a start right after a device failure, without configuring the device again: it may be refused (the device is
+            // not armed). If it is accepted the acquisition is an ordinary one and is ended at once.
+            start_may = 1;
+            api("start");
+            start_may = 0;
+            if (last_rc == 0) {
+                int finite = 1;
+                for (int s = 0; s < nstreams; s++)
+                    finite = finite && SC[s].frames >= 0;
+                api(finite ? "stop" : "abort");
+            }
         } else if (!strcmp(op, "map")) {
             int s = atoi(prog[++i]);
             struct VideoFrame *b = 0, *e = 0;
